@@ -90,3 +90,58 @@ func vh_C20_config_gate_Q() {
 	symxAssert(err != nil, "C20.config.violated-constraint-is-rejected")
 	symxAssert(strings.Contains(msg, "'"+all[k].field+"'"), "C20.config.message-names-the-field")
 }
+
+// the permission string, symbolic: the configuration is accepted iff the string is empty or three octal digits with an
+// optional leading zero (the rule is read and applied by the real validator; the reference is a byte loop)
+func vh_C20_config_perms_Q() {
+	perms := symxString("perms", 0, 4, "0178a")
+	cfg := vhValidConfig()
+	cfg.RoutesConfig.OutputFilePerms = perms
+	err := ValidateStruct(cfg)
+	digits := perms
+	if len(digits) == 4 && digits[0] == '0' {
+		digits = digits[1:]
+	}
+	ok := len(perms) == 0
+	if len(digits) == 3 {
+		ok = true
+		for i := 0; i < 3; i++ {
+			if digits[i] < '0' || digits[i] > '7' {
+				ok = false
+			}
+		}
+	}
+	if ok {
+		symxCover("C20.config.perms.accepted")
+		symxAssert(err == nil, "C20.config.valid-configuration-is-accepted")
+	} else {
+		symxCover("C20.config.perms.rejected")
+		symxAssert(err != nil && strings.Contains(ExtractValidationErrorMessage(err, nil), "'OutputFilePerms'"), "C20.config.malformed-permission-string-is-rejected-naming-the-field")
+	}
+}
+
+// engine and OpenAPI version, symbolic: accepted iff one of the five engines / two versions
+func vh_C20_config_oneof_Q() {
+	cfg := vhValidConfig()
+	engine := symxString("engine", 3, 3, "ginmuxch")
+	version := "3." + symxString("minor", 1, 1, "0129") + ".0"
+	cfg.RoutesConfig.Engine = definitions.RoutingEngineType(engine)
+	cfg.OpenAPIGeneratorConfig.OpenAPI = version
+	err := ValidateStruct(cfg)
+	msg := ExtractValidationErrorMessage(err, nil)
+	engineOK := engine == "gin" || engine == "mux" || engine == "chi"
+	versionOK := version == "3.0.0" || version == "3.1.0"
+	if engineOK && versionOK {
+		symxCover("C20.config.oneof.accepted")
+		symxAssert(err == nil, "C20.config.valid-configuration-is-accepted")
+		return
+	}
+	symxCover("C20.config.oneof.rejected")
+	symxAssert(err != nil, "C20.config.unknown-engine-or-version-is-rejected")
+	if !engineOK {
+		symxAssert(strings.Contains(msg, "'Engine'"), "C20.config.message-names-the-field")
+	}
+	if !versionOK {
+		symxAssert(strings.Contains(msg, "'OpenAPI'"), "C20.config.message-names-the-field")
+	}
+}
